@@ -48,9 +48,10 @@ func genMirrorOp(t *rapid.T) Op {
 		op.Name = B(rapid.SampledFrom([]string{"n1", "n2", "n1", "x", "f", "a", "", "s/l"}).Draw(t, "name"))
 		op.Dir = rapid.IntRange(0, 2).Draw(t, "dir") == 0
 		op.Perm = rapid.SampledFrom([]uint32{0644, 0600, 0755, 0700, 0666, 0444, 0, 0777, 01644}).Draw(t, "perm")
-		op.Mode = rapid.SampledFrom([]uint8{0, 1, 2, 2, 3, 0x10, 0x11, 0x12}).Draw(t, "mode")
+		op.Mode = rapid.SampledFrom([]uint8{0, 1, 2, 2, 3, 0x10, 0x11, 0x12, 0x31, 0x32, 0x22}).Draw(t, "mode")
 	case "open":
-		op.Mode = rapid.SampledFrom([]uint8{0, 1, 2, 2, 3, 0x10, 0x11, 0x12, 0x40}).Draw(t, "mode")
+		// access mode, OTRUNC (0x10), and the option bits a server has to ignore: OCEXEC (0x20), ORCLOSE (0x40)
+		op.Mode = rapid.SampledFrom([]uint8{0, 1, 2, 2, 3, 0x10, 0x11, 0x12, 0x40, 0x20, 0x21, 0x31, 0x32, 0x51, 0x52, 0x72}).Draw(t, "mode")
 	case "read":
 		op.Offset = rapid.SampledFrom([]int64{0, 0, 1, 5, 13, 22, 30, 100, -1}).Draw(t, "off")
 		op.Count = rapid.SampledFrom([]int{0, 1, 7, 64, 4096}).Draw(t, "count")
@@ -84,6 +85,36 @@ func GenMirror(t *rapid.T) MirrorCase {
 	}
 	minLen := rapid.IntRange(1, max/2).Draw(t, "minlen")
 	c.Ops = append(c.Ops, rapid.SliceOfN(rapid.Custom(genMirrorOp), minLen, max).Draw(t, "ops")...)
+	if rapid.IntRange(0, 4).Draw(t, "swapkind") == 0 {
+		// a fid keeps pointing at a name while, through other fids, the object of that name is
+		// replaced by one of the other kind; then the stale fid is used
+		B := func(s ...string) []harn.B {
+			var out []harn.B
+			for _, x := range s {
+				out = append(out, harn.B(x))
+			}
+			return out
+		}
+		type tgt struct {
+			parent []string
+			name   string
+			isDir  bool
+		}
+		g := rapid.SampledFrom([]tgt{{[]string{"a"}, "x", false}, {nil, "f", false}, {nil, "e", true}, {[]string{"a", "d"}, "y", false}}).Draw(t, "swaptarget")
+		full := append(append([]string{}, g.parent...), g.name)
+		block := []Op{
+			{Kind: "clunk", Fid: 5}, {Kind: "clunk", Fid: 6}, {Kind: "clunk", Fid: 7},
+			{Kind: "walk", Fid: 0, Newfid: 5, Names: B(full...)},
+			{Kind: "walk", Fid: 0, Newfid: 6, Names: B(full...)},
+			{Kind: "remove", Fid: 6},
+			{Kind: "walk", Fid: 0, Newfid: 7, Names: B(g.parent...)},
+			{Kind: "create", Fid: 7, Name: harn.B(g.name), Dir: !g.isDir, Perm: 0755, Mode: 0},
+			{Kind: "clunk", Fid: 7},
+			{Kind: rapid.SampledFrom([]string{"remove", "remove", "fstat", "rename", "chmod"}).Draw(t, "swapuse"), Fid: 5, Name: harn.B("r9"), Perm: 0700},
+		}
+		at := rapid.IntRange(1, len(c.Ops)).Draw(t, "swapat")
+		c.Ops = append(c.Ops[:at], append(block, c.Ops[at:]...)...)
+	}
 	return c
 }
 
